@@ -69,7 +69,7 @@ def main():
     scratch = "/root/scratch/seeded-" + sid
     shutil.rmtree(scratch, ignore_errors=True)
     for prop in props:
-        for tier in ("quick", "thorough"):
+        for tier in (("quick",) if os.environ.get("SEEDED_QUICK_ONLY") else ("quick", "thorough")):
             env = goenv()
             env.update(VERIF_REPO=wt, VERIF_REPLAY_OUT=os.path.join(scratch, "replay"), VERIF_EVIDENCE_OUT=os.path.join(scratch, "evidence"), VERIF_WORK=os.path.join(scratch, "work"))
             t0 = time.time()
